@@ -108,11 +108,13 @@ def _takeLocks(locks, cmdName, path, lockType, nolocks, ntry, verbose):
 
                                 time.sleep(dt)
                                 continue
-                    else:
-                        if not os.path.exists(lockDir):
-                            if verbose:
-                                print("Unable to lock %s; proceeding with trepidation" % d, file=utils.stdwarn)
-                            return locks
+                    elif e.errno != errno.EEXIST:
+                        # we cannot make the lock directory (a stack we may not write to), so there is nothing
+                        # we could lock here
+                        if verbose:
+                            print("Unable to lock %s; proceeding with trepidation" % d, file=utils.stdwarn)
+                        makeLock = False
+                        break
 
                 if not makeLock:
                     continue
